@@ -11,6 +11,12 @@ Correspondence: with `disable_mesh_reordering=True` (no reordering rungs) the ve
 and the raise of `extend_space_dimension_to` on field shapes that fit neither dimension are compared with the
 Lean model `Fc.compareDimMatch` (driver op `c17.cmp`); the scalar kernel `0 vs z` with op `c17.zero`.
 CLI: `--disable-mesh-space-dimension-matching` on the shipped 2-d / 3-d pair (plumbing of the flag).
+CLI batch (phase 5, `fcv/dimcli_p5c.py`): generated pairs (d-dimensional mesh, zero-padded copy; 2-d vs 3-d in .xdmf,
+1-d vs 2-d/3-d and 2-d vs 3-d in .med — the formats whose writers keep the space dimension), scalar / vector / tensor
+fields, both roles, optionally relabeled or with one extra entry beyond / below tolerance, are written to files and
+compared by `fieldcompare file`, by `fieldcompare dir` (directory pair containing the file pair) and through the API,
+each with and without `--disable-mesh-space-dimension-matching` (and `--disable-mesh-reordering`): the three must show
+the verdict the property demands, and — with reordering disabled — the verdict of `Fc.compareDimMatch`.
 """
 from __future__ import annotations
 import copy
@@ -316,6 +322,161 @@ def cli_flag(ctx):
         ctx.violation(dict(case, flag=True), res[1], 1, what="CLI: --disable-mesh-space-dimension-matching has no effect")
 
 
+# ---------------------------------------------------------------- CLI batch: file mode, dir mode, API vs property / model
+
+CLI_VARIANTS = ["zero", "zero", "coord-above", "field-above", "zero", "coord-below"]
+
+
+def gen_cli_pair(rng, k, fam):
+    """-> (lo, hi, meta, tags): a d-dimensional logical mesh and its (possibly perturbed / relabeled) padded copy"""
+    from fcv import dimcli_p5c as dc
+    ext, d, sd, ptails, ctails = fam
+    if k % 7 == 6:
+        sd = d                       # control: equal dimensions, the flag must not matter
+    lm, gt = gen_mesh(rng, max_cells_per_dir=2, dims=(d,), allow_orphans=False, allow_duplicates=False, fields=False,
+                      types=rng.choice(["quad", "tri", "mixed2"]), scale=rng.choice([1e-3, 1.0, 1.0, 250.0]))
+    dc.make_fields(rng, lm, ptails(d), ctails(d), k)
+    hi, st = c08.pad_lm(lm, sd)
+    variant = CLI_VARIANTS[k % len(CLI_VARIANTS)]
+    slots = extra_slots(lm, hi, d, sd) if (st == "ok" and sd != d) else []
+    extra = "zero"
+    if variant != "zero" and slots:
+        fslots = [s_ for s_ in slots if s_[0] != "coord"]
+        cslots = [s_ for s_ in slots if s_[0] == "coord"]
+        if variant == "field-above" and fslots:
+            slot = rng.choice(fslots)
+            f = hi[slot[0]][slot[1]]
+            f["v"][slot[2]] = rng.choice([1e-3, -2.5]) if f["dt"] in FLOATS else rng.choice([1, -3])
+            extra = "above"
+        elif cslots:
+            slot = rng.choice(cslots)
+            tol = mesh_abs_tol(lm)
+            if variant == "coord-below":
+                z, extra = 0.25 * tol, "below"
+            else:
+                z, extra = rng.choice([4.0 * tol, 1e5 * tol]), "above"
+            hi["points"][slot[1]][slot[2]] = z * rng.choice([1.0, -1.0])
+    do_relabel = (k % 3 == 2)
+    if do_relabel:
+        hi = relabel(rng, hi)
+    meta = {"d": d, "sd": sd, "pad": st, "extra": extra, "relabel": do_relabel}
+    tags = ["cli-batch", "cli-" + ext, f"cli-{d}->{sd}", "cli-extra-" + extra] + (["cli-relabeled"] if do_relabel else [])
+    return lm, hi, meta, tags
+
+
+def observe_cli(tree, case):
+    """{"file": exit, "dir": exit, "api": verdict} for one configuration; files are written here"""
+    from fcv import dimcli_p5c as dc
+    base, res_dir, ref_dir, res_file, ref_file = tree.pair(case["source"], case["reference"], case["cli"]["ext"])
+    try:
+        obs = dc.cli_exits(res_dir, ref_dir, res_file, ref_file, case["disable"], case["noreorder"])
+    finally:
+        tree.drop(base)
+    obs["api"] = run_impl(case)[0]
+    return obs
+
+
+def cli_problems(obs, want):
+    """which of the three observables do not show the verdict `want` ('T' = exit 0 / PASS)"""
+    bad = [m for m in ("file", "dir") if (obs[m] == 0) != (want == "T")]
+    if obs["api"] != want:
+        bad.append("api")
+    return bad
+
+
+def cli_batch(ctx):
+    from fcv import dimcli_p5c as dc
+    rng = ctx.rng
+    if not dc.available(".xdmf"):
+        ctx.notes.append("CLI batch skipped: meshio / h5py not importable")
+        return
+    tree = dc.Tree()
+    runs, lines, idx, mimpls = [], [], [], {}
+    discarded = 0
+    try:
+        per_family = ctx.scale(7, 60)
+        for fam in dc.FAMILIES:
+            for k in range(per_family):
+                lo, hi, meta, tags = gen_cli_pair(rng, k, fam)
+                if meta["pad"] != "ok":
+                    continue
+                ext = fam[0]
+                base, res_dir, ref_dir, res_file, ref_file = tree.pair(lo, hi, ext)
+                try:
+                    if not (dc.reads_back(lo, res_file, c08.units) and dc.reads_back(hi, ref_file, c08.units)):
+                        discarded += 1
+                        ctx.case(("cli-discarded", ext, k, c08.units(lo)), nontrivial=False,
+                                 tags=["cli-batch", "cli-discarded-roundtrip"])
+                        continue
+                    for swap in (False, True):
+                        a, b = (hi, lo) if swap else (lo, hi)
+                        dirs = (ref_dir, res_dir, ref_file, res_file) if swap else (res_dir, ref_dir, res_file, ref_file)
+                        for disable in (False, True):
+                            # the observables the property speaks about: the plain CLI (reordering left enabled, as in
+                            # the property's "combined with arbitrary reordering") and the API in the same configuration
+                            case = {"source": a, "reference": b, "disable": disable, "noreorder": False,
+                                    "pred": ["dflt"], "cli": {"ext": ext}, "meta": meta}
+                            obs = dc.cli_exits(*dirs, disable, False)
+                            obs["api"] = run_impl(case)[0]
+                            runs.append((case, meta, tags + (["padded-is-source"] if swap else []), obs))
+                            if not meta["relabel"]:
+                                # model: Fc.compareDimMatch describes the rungs before any reordering; on a pair stored
+                                # in the same order a PASS there is a PASS of the whole ladder
+                                mcase = dict(case, noreorder=True)
+                                mimpl, _, tol = run_impl(mcase)
+                                if ctx.driver_ok and tol is not None:
+                                    lines.append(enc_case(mcase, tol)); idx.append(len(runs) - 1)
+                                    mimpls[len(runs) - 1] = mimpl
+                                if not disable and not swap and meta["d"] != meta["sd"] and meta["extra"] != "above":
+                                    # informational (outside C17's quantifier): the CLI with --disable-mesh-reordering
+                                    probe = dc.cli_exits(*dirs, False, True)
+                                    ctx.dist["cli-noreorder-flag-padded-copy-file-exit-" + str(probe["file"])] += 1
+                                    ctx.dist["cli-noreorder-flag-padded-copy-dir-exit-" + str(probe["dir"])] += 1
+                finally:
+                    tree.drop(base)
+    finally:
+        tree.close()
+    reps = dict(zip(idx, ctx.lean(lines))) if lines else {}
+    for i, (case, meta, tags, obs) in enumerate(runs):
+        want = expected(case, meta)
+        rep = reps.get(i)
+        tags = list(tags) + ["matching-" + ("off" if case["disable"] else "on"),
+                             "reorder-" + ("off" if case["noreorder"] else "on"),
+                             "cli-file-exit-" + str(obs["file"]), "cli-dir-exit-" + str(obs["dir"])]
+        ctx.case((c08.units(case["source"]), c08.units(case["reference"]), case["disable"], case["noreorder"], "cli",
+                  case["cli"]["ext"]), nontrivial=(meta["d"] != meta["sd"]), tags=tags,
+                 sample={"dims": [meta["d"], meta["sd"]], "format": case["cli"]["ext"], "extra": meta["extra"],
+                         "disable": case["disable"], "noreorder": case["noreorder"], "relabel": meta["relabel"],
+                         "observed": obs, "expected": want, "lean": rep})
+        if want is not None:
+            bad = cli_problems(obs, want)
+            if bad:
+                what = ("accepted although dimension matching is disabled" if want == "F" and case["disable"]
+                        and meta["d"] != meta["sd"] else
+                        ("padded copy not accepted" if want == "T" else
+                         "accepted although an additional coordinate/component is non-zero beyond tolerance"))
+                ctx.violation(case, obs, want, cls=None,
+                              what=what + " by " + ", ".join({"file": "`fieldcompare file`", "dir": "`fieldcompare dir`",
+                                                              "api": "MeshFieldsComparator"}[m] for m in bad)
+                              + " (file mode, dir mode and the API must all show the verdict the property demands)")
+        if rep is not None and rep.get("hyp") == "1":
+            m = rep["model"]
+            if m != mimpls[i][:1]:
+                ctx.mismatch(dict(case, noreorder=True), mimpls[i], m,
+                             what="MeshFieldsComparator verdict (reordering disabled): impl vs model")
+            # same stored order: the model's PASS (no reordering needed) is the verdict of the full ladder, hence of
+            # both CLI modes; the model's FAIL is compared through the property's expectation above
+            badm = cli_problems(obs, "T") if m == "T" else []
+            if badm:
+                ctx.mismatch(case, obs, m, what="Fc.compareDimMatch accepts the pair before any reordering, but not: "
+                             + "/".join(badm))
+            if rep["spec"] != "-" and want is not None and rep["spec"] != want:
+                ctx.inconsistent(case, "lean-spec=" + rep["spec"], "python-expectation=" + want)
+    ctx.extra["cli_batch"] = {"configurations": len(runs), "pairs_discarded_roundtrip": discarded}
+    if discarded:
+        ctx.notes.append(f"CLI batch: {discarded} generated file pair(s) did not read back identically and were discarded")
+
+
 # ---------------------------------------------------------------- run
 
 def run(ctx):
@@ -323,12 +484,17 @@ def run(ctx):
                 "cells, one or two cell types, scalar/vector/tensor point and cell fields, float64 and int64) and its zero-padded "
                 "copy of dimension 2/3 built by an independent oracle, either role, optionally relabeled (+ orphan points), "
                 "dimension matching on/off, reordering on/off, one extra coordinate/component zero / below / above tolerance; "
-                "non-trivial = the two space dimensions differ; distinct = distinct (source, reference, flags, predicate)")
+                "non-trivial = the two space dimensions differ; distinct = distinct (source, reference, flags, predicate); "
+                "CLI batch: the same pairs written to .xdmf (2->3) / .med (1->2, 1->3, 2->3) files, both roles, matching "
+                "on/off x reordering on/off, through `fieldcompare file`, `fieldcompare dir` and the API")
     ctx.assumptions += [
         "mesh_equal's cell stage is modelled by a stand-in valid for equal cell-type sets (C03/C16 own the full model)",
         "the reordering rungs are not modelled here (C02): correspondence runs with disable_mesh_reordering=True, "
         "relabeled pairs are checked against the property only",
-        "Fc.fuzzyCheck models FuzzyEquality (property C01's correspondence)"]
+        "Fc.fuzzyCheck models FuzzyEquality (property C01's correspondence)",
+        "CLI batch: meshio's .xdmf / .med writers and fieldcompare's reader round-trip the generated meshes (side-checked "
+        "on every file: read back through fieldcompare.io.read and compared with the logical mesh; else discarded); "
+        "the API observable is MeshFieldsComparator on the logical meshes, the CLI observables are exit codes"]
     n = ctx.scale(700, 30000)
     items = [gen_case(ctx.rng, k) for k in range(n)]
     CH = 400
@@ -336,6 +502,7 @@ def run(ctx):
         evaluate(ctx, items[i:i + CH])
     zero_cases(ctx)
     cli_flag(ctx)
+    cli_batch(ctx)
     ctx.spec_viol = ctx.spec_viol[:40]
 
 
@@ -349,6 +516,23 @@ def replay_witness(ctx, entry):
 
 def replay(ctx, payload):
     case = payload["case"]
+    if "cli" in case and "source" in case:
+        from fcv import dimcli_p5c as dc
+        tree = dc.Tree()
+        try:
+            obs = observe_cli(tree, case)
+        finally:
+            tree.close()
+        want = payload.get("spec")
+        if want not in ("T", "F"):
+            want = expected(case, case["meta"])
+        bad = cli_problems(obs, want)
+        print(f"replay: file-mode exit={obs['file']} dir-mode exit={obs['dir']} API verdict={obs['api']}; "
+              f"the property demands {want} ({'exit 0' if want == 'T' else 'non-zero exit'}); deviating: {bad}")
+        if bad:
+            print(f"VIOLATION property=C17 replay={payload.get('_path', '<replay>')}")
+            return 1
+        return 0
     if "source" not in case:
         print("replay: not a comparator case:", str(case)[:300])
         return 1 if payload.get("kind") == "no-failing-input-found" else 0
